@@ -229,7 +229,8 @@ class P:
                             g = gens[proto]
                             ip = "127.0.0.%d" % rng.randrange(2, 250)
                             while True:
-                                t, o = g.rand_tpl(tid=rng.choice([256, 257, 300, 999]), allow_var=False)
+                                # (several fields: the one-field re-announcements of a later shrink cycle then really make the saved file shorter)
+                                t, o = g.rand_tpl(tid=rng.choice([256, 257, 300, 999]), allow_var=False, nfields=rng.choice([6, 10, 25]))
                                 if g.min_rec_len(t) > 4:
                                     break
                             dmsg, pub = announce(proto, ip, t, o)
